@@ -35,13 +35,16 @@ const (
 	PersPrio
 	Dist
 	DistPrio
+	Cust     // a user-supplied FIFO that also implements IAcknowledgeable, bound with WithQueue
+	CustPrio // the same for WithPriorityQueue
 )
 
 func (k QK) String() string {
-	return [...]string{"fifo", "prio", "pers", "persprio", "dist", "distprio"}[k]
+	return [...]string{"fifo", "prio", "pers", "persprio", "dist", "distprio", "cust", "custprio"}[k]
 }
-func (k QK) IsPrio() bool    { return k == Prio || k == PersPrio || k == DistPrio }
+func (k QK) IsPrio() bool    { return k == Prio || k == PersPrio || k == DistPrio || k == CustPrio }
 func (k QK) IsAdapter() bool { return k >= Pers }
+func (k QK) IsCustom() bool  { return k == Cust || k == CustPrio }
 
 // job behaviours
 const (
@@ -300,6 +303,7 @@ type W struct {
 	Limits   []LimitChange // limit history: value in effect from Seq on
 	HasCtx   bool
 	Expiry   bool
+	autoN    int
 	Notified int // "enqueued" notifications delivered to this consumer (distributed queues)
 	// monitor state
 	lastProc int
@@ -344,7 +348,9 @@ func (h *H) NewWorker(wk WK, limit int, opts ...any) *W {
 		if tag, ok := h.curAdd[tid()]; ok {
 			return fmt.Sprintf("gen%d", tag)
 		}
-		return "gen?"
+		// batch items: a fresh value per call
+		w.autoN++
+		return fmt.Sprintf("auto%d", w.autoN)
 	}))
 	switch wk {
 	case Plain:
@@ -456,6 +462,7 @@ func (w *W) Bind(k QK, ad *Adapter) *Q {
 	q := &Q{Kind: k}
 	if k.IsAdapter() && ad == nil {
 		ad = h.NewAdapter(k.IsPrio())
+		ad.AnyItems = k.IsCustom()
 	}
 	q.Ad = ad
 	c := h.ctlCall(w, "Bind:"+k.String(), 0)
@@ -484,6 +491,12 @@ func (w *W) Bind(k QK, ad *Adapter) *Q {
 			q.dpq = w.pb.WithDistributedPriorityQueue(prioAdapter{ad})
 			ad.consumer = nil
 			q.Base = q.dpq
+		case Cust:
+			q.q = w.pb.WithQueue(ad)
+			q.Base = q.q
+		case CustPrio:
+			q.pq = w.pb.WithPriorityQueue(prioAdapter{ad})
+			q.Base = q.pq
 		}
 	case ErrW:
 		switch k {
@@ -492,6 +505,12 @@ func (w *W) Bind(k QK, ad *Adapter) *Q {
 			q.Base = q.eq
 		case Prio:
 			q.epq = w.eb.BindPriorityQueue()
+			q.Base = q.epq
+		case Cust:
+			q.eq = w.eb.WithQueue(ad)
+			q.Base = q.eq
+		case CustPrio:
+			q.epq = w.eb.WithPriorityQueue(prioAdapter{ad})
 			q.Base = q.epq
 		default:
 			panic("harness: err worker has no " + k.String())
@@ -503,6 +522,12 @@ func (w *W) Bind(k QK, ad *Adapter) *Q {
 			q.Base = q.rq
 		case Prio:
 			q.rpq = w.rb.BindPriorityQueue()
+			q.Base = q.rpq
+		case Cust:
+			q.rq = w.rb.WithQueue(ad)
+			q.Base = q.rq
+		case CustPrio:
+			q.rpq = w.rb.WithPriorityQueue(prioAdapter{ad})
 			q.Base = q.rpq
 		default:
 			panic("harness: result worker has no " + k.String())
@@ -616,8 +641,11 @@ func (q *Q) Add(tag int, o AddOpt) *JobRec {
 	return jr
 }
 
-// AddAll submits a batch. Items get IDs "id<tag>".
-func (q *Q) AddAll(tags []int, prios []int) *BatchRec {
+// AddAll submits a batch. Items get IDs "id<tag>"; the items listed in NoID are submitted with an empty ID
+// (the worker's generator must then supply one per item).
+func (q *Q) AddAll(tags []int, prios []int) *BatchRec { return q.AddAllIDs(tags, prios, nil) }
+
+func (q *Q) AddAllIDs(tags []int, prios []int, noID map[int]bool) *BatchRec {
 	h := q.h
 	b := &BatchRec{ID: len(h.Batches), Tags: tags, W: q.W, Q: q}
 	h.Batches = append(h.Batches, b)
@@ -630,6 +658,10 @@ func (q *Q) AddAll(tags []int, prios []int) *BatchRec {
 		jr := h.newJob(q, t, AddOpt{Prio: p, WithID: true})
 		jr.Batch = b
 		items[i] = varmq.Item[int]{ID: fmt.Sprintf("id%d", t), Data: t, Priority: p}
+		if noID[t] {
+			items[i].ID = ""
+			jr.WantID = "~auto"
+		}
 	}
 	t := tid()
 	h.inCall[t] = "AddAll"
@@ -848,6 +880,9 @@ type Adapter struct {
 	Faults   bool // ask the explorer for a fault at every call
 	NFaults  int
 	MaxFault int
+	FaultsBy map[string]int // faults injected per operation kind (enq, deq, ack)
+	AnyItems bool           // custom in-process queue: items are job objects, not bytes
+	FaultOnly string        // "" = any operation may be refused, else only this one (enq, deq, ack)
 	AckCount map[string]int
 	AsyncNotify bool
 }
@@ -856,12 +891,16 @@ func (h *H) NewAdapter(prio bool) *Adapter {
 	return &Adapter{h: h, prio: prio, unacked: map[string]adItem{}, AckCount: map[string]int{}}
 }
 
-func (a *Adapter) fault() bool {
-	if !a.Faults || a.NFaults >= a.MaxFault || vrt.Raw() {
+func (a *Adapter) fault(op string) bool {
+	if !a.Faults || a.NFaults >= a.MaxFault || vrt.Raw() || (a.FaultOnly != "" && a.FaultOnly != op) {
 		return false
 	}
 	if vrt.Choose(2) == 1 {
 		a.NFaults++
+		if a.FaultsBy == nil {
+			a.FaultsBy = map[string]int{}
+		}
+		a.FaultsBy[op]++
 		return true
 	}
 	return false
@@ -871,7 +910,11 @@ func (a *Adapter) Len() int { return len(a.items) }
 func (a *Adapter) Values() []any {
 	r := make([]any, 0, len(a.items))
 	for _, it := range a.items {
-		r = append(r, it.data)
+		if it.raw != nil {
+			r = append(r, it.raw)
+		} else {
+			r = append(r, it.data)
+		}
 	}
 	return r
 }
@@ -883,7 +926,7 @@ func (a *Adapter) Close() error { a.closed = true; return nil }
 // Dequeue without an acknowledgement id is destructive: the item leaves the adapter for good.
 func (a *Adapter) Dequeue() (any, bool) {
 	vrt.Point(vrt.OpPlain, nil, nil)
-	if len(a.items) == 0 || a.fault() {
+	if len(a.items) == 0 || a.fault("deq") {
 		a.Log = append(a.Log, AdCall{Seq: a.h.ev("mark", "ad.deq-plain", -1, "false"), Op: "deq-plain"})
 		return nil, false
 	}
@@ -903,12 +946,21 @@ func (a *Adapter) Subscribe(f func(string)) {
 func (a *Adapter) enqueue(item any, prio int) bool {
 	vrt.Point(vrt.OpPlain, nil, nil)
 	b, isB := item.([]byte)
-	if a.closed || !isB || a.fault() {
+	if a.AnyItems && !isB {
+		isB = true
+	}
+	if a.closed || !isB || a.fault("enq") {
 		a.Log = append(a.Log, AdCall{Seq: a.h.ev("mark", "ad.enq", -1, "false"), Op: "enq"})
 		return false
 	}
 	a.nseq++
 	it := adItem{data: b, prio: prio, seq: a.nseq}
+	if a.AnyItems {
+		it.raw = item
+		if jb, ok := item.(interface{ Data() int }); ok {
+			it.data = []byte(fmt.Sprintf(`{"data":%d}`, jb.Data()))
+		}
+	}
 	if a.prio {
 		i := sort.Search(len(a.items), func(i int) bool { return a.items[i].prio > prio })
 		a.items = append(a.items, adItem{})
@@ -944,7 +996,7 @@ func (a *Adapter) Enqueue(item any) bool { return a.enqueue(item, 0) }
 
 func (a *Adapter) DequeueWithAckId() (any, bool, string) {
 	vrt.Point(vrt.OpPlain, nil, nil)
-	if len(a.items) == 0 || a.fault() {
+	if len(a.items) == 0 || a.fault("deq") {
 		a.Log = append(a.Log, AdCall{Seq: a.h.ev("mark", "ad.deq", -1, "false"), Op: "deq"})
 		return nil, false, ""
 	}
@@ -977,7 +1029,7 @@ func (a *Adapter) Acknowledge(id string) bool {
 	vrt.Point(vrt.OpPlain, nil, nil)
 	a.AckCount[id]++
 	_, held := a.unacked[id]
-	if !held || a.fault() {
+	if !held || a.fault("ack") {
 		a.Log = append(a.Log, AdCall{Seq: a.h.ev("mark", "ad.ack", -1, id+"=false"), Op: "ack", Ack: id})
 		return false
 	}
